@@ -1,6 +1,8 @@
 //! Common helpers for the correspondence harness: PRNG, argument handling,
 //! trace output, storage construction.
 
+pub mod config;
+
 use std::collections::HashMap;
 use std::fs::File;
 use std::io::{BufRead, BufReader, BufWriter, Write};
